@@ -32,10 +32,11 @@ structure Fixes where
   nilE2e       : Bool   -- TopicStats.Add / ChannelStats.Add tolerate a missing e2e latency
   chanNotFound : Bool   -- channelHandler answers 404 when no node reports the channel
   nilPct       : Bool := true   -- E2eProcessingLatencyAggregate.UnmarshalJSON drops null percentile entries (F24)
+  clearNodes   : Bool := true   -- GetNSQDStats discards a `nodes` member sent by the upstream (F25)
 deriving DecidableEq, Repr
 
-def Fixes.all : Fixes := ⟨true, true, true, true, true⟩
-def Fixes.unfixed : Fixes := ⟨false, false, false, false, false⟩
+def Fixes.all : Fixes := ⟨true, true, true, true, true, true⟩
+def Fixes.unfixed : Fixes := ⟨false, false, false, false, false, false⟩
 
 /-! ### What the upstreams say -/
 
@@ -83,6 +84,9 @@ structure Chan where
   clients : List (Option Client)     -- `none` = JSON null
   e2e : Bool                         -- `e2e_processing_latency` present and not null
   pct : List Latency.Pct := []       -- shape of its `percentiles` array (see `Nsq.Model.Latency`)
+  upNodes : List Bool := []          -- a `nodes` member in the upstream's channel object (nsqd never sends
+                                     -- one; the field exists because nsqadmin's own output type is decoded
+                                     -- into): one entry per element, `false` = JSON null
 deriving DecidableEq, Repr
 
 /-- One topic in an nsqd `/stats` answer. -/
@@ -416,6 +420,7 @@ structure ChanNode where
   paused : Bool
   clients : List ClientV
   e2e : Bool
+  upNodes : List Bool := []          -- what is in `NodeStats` when the report leaves GetNSQDStats
 deriving DecidableEq, Repr
 
 /-- An aggregated `ChannelStats`. -/
@@ -427,6 +432,7 @@ structure ChanAgg where
   paused : Bool := false
   nodes : List ChanNode := []
   clients : List ClientV := []
+  junk : List Bool := []             -- entries of `NodeStats` that did not come from an `Add` (`false` = nil)
 deriving DecidableEq, Repr
 
 /-- A per-node `TopicStats`. -/
@@ -461,7 +467,8 @@ def chanNodeOf (fx : Fixes) (p : Producer) (topic : String) (c : Chan) : Except 
   match clientsOf fx p.addr c.clients with
   | .error e => .error e
   | .ok cl => .ok { node := p.addr, hostname := p.hostname, topic := topic, name := c.name,
-                    cnt := c.cnt.derive, paused := c.paused, clients := cl, e2e := c.e2e }
+                    cnt := c.cnt.derive, paused := c.paused, clients := cl, e2e := c.e2e,
+                    upNodes := if fx.clearNodes then [] else c.upNodes }
 
 /-- The channel map of GetNSQDStats as an association list in first-seen order. -/
 abbrev ChanMap := List (String × ChanAgg)
@@ -587,14 +594,17 @@ def mergeChan (fx : Fixes) (cs : List ChanAgg) (a : ChanNode) : Except Fault (Li
         | .error e => .error e
         | .ok r =>
           if c.name == a.name then
-            (match c.add fx a with
-             | .error e => .error e
-             | .ok c' => .ok (c' :: r))
+            -- `c.NodeStats = append(c.NodeStats, a); sort.Sort(ChannelStatsByHost{c.NodeStats})`: at least two
+            -- elements, so `Less` looks at every one of them
+            (if c.junk.any (!·) then .error (.nilDeref "ChannelStatsByHost.Less c.NodeStats[i].Hostname")
+             else match c.add fx a with
+               | .error e => .error e
+               | .ok c' => .ok (c' :: r))
           else .ok (c :: r)
      go cs)
   else
     .ok (cs ++ [{ node := a.node, topic := a.topic, name := a.name, cnt := a.cnt, paused := a.paused,
-                  nodes := [], clients := a.clients }])
+                  nodes := [], clients := a.clients, junk := a.upNodes }])
 
 def mergeChans (fx : Fixes) : List ChanNode → List ChanAgg → Except Fault (List ChanAgg)
   | [], cs => .ok cs
